@@ -115,6 +115,12 @@ C["C16"] = ("Coq theorems over a model of the subscription client (dependency se
             "as it was is refuted twice (17th change with no stream blocks holding the lock so that the reconnect never happens; unsubscribe+subscribe in one batch lose their order), both "
             "repaired by fix commits. Tie: histories on the real client through a verif-tagged handle with a scripted stream factory vs the extracted model.",
             "Server semantics of a request assumed (add then remove); gRPC transport and the 1 s retry pause not exercised.", "DESIGN.md §4 C16")
+C["C09"] = ("Coq theorems over a model of the listener's life (Serve goroutine scheduled, bind rounds, accepts, handlers returning, Stop, Drain in ANY order): an invariant over every "
+            "reachable state; Stop is never left waiting for a Serve that returned without signalling; while it waits, the handlers of the closed connections returning and Serve's next "
+            "step let it return within (open connections + 2) steps; afterwards the socket is closed and no connection is left; Drain leaves established connections alone and no accept "
+            "succeeds while draining; the code as it was is refuted (Stop during bind retry / before Serve runs waits for ever), repaired by fix commits together with two Redis-side "
+            "hangs (silent backend). Tie: lifecycle scenarios and random stop points on both processors vs the extracted model's predictions.",
+            "Backends closed and goroutine count observed, not modelled; connection limit via C20.", "DESIGN.md §4 C09")
 checks = []
 for pid in sorted(C):
     text, note, ref = C[pid]
